@@ -1063,6 +1063,12 @@ def run(ctx):
     res.notes.append("the same frame object written through one FrameWriter / queued on a running AsyncProtocol several times with data, message and "
                      "header fields changed (or not) in between: every write is compared with the frame-object model's `bytes` at that moment")
     res.notes.append("object re-use: frames serialised, updated through the data / message setters and serialised again are compared with a fresh frame built from the final content")
+    # the kind dimension: all FrameType members by reflection x data-dict / message variants (harness/c02_kinds.py)
+    from common import Parts
+    import c02_kinds
+    parts = Parts(res)
+    parts.run("kinds", c02_kinds.run_part, res, random.Random(ctx["seed"] * 31 + 204), tier)
+    parts.finish()
     order_failures(res)
     return res
 
@@ -1073,6 +1079,10 @@ def replay(ctx):
     res = Result("C02")
     res.rule = "replay of one recorded case"
     case = f["input"]
+    if case.get("t") in ("kind", "kinds-table", "kinds-reflection") or case.get("part") == "kinds":
+        import c02_kinds
+        c02_kinds.replay_case(res, case)
+        return res
     if case.get("t") == "frame_reuse" and case.get("route"):
         rewrite_checks(res, [case])
         return res
